@@ -11,7 +11,7 @@ DirExport.create/add_name/set_rva, DirReloc.add_reloc/set_rva, header attributes
          address maps    off2rva/rva2off, rva2virt/virt2rva (and the composed virt2off/off2virt) at the first and last
                          file-backed byte of every section
          virtual writes  q.virt.set / q.rva.set at the first/last file-backed byte read back at once (neighbours intact)
-         reloc_to        twice (one positive, one negative base delta): every relocated 32-bit word moves by exactly
+         reloc_to        twice (one negative, then one positive base delta; the words are chosen to cross 0, 2^31 and 2^32): every relocated 32-bit word moves by exactly
                          the delta (mod 2^32), nothing else in any section moves, ImageBase is the new base
   gen 2  r = PE(bytes(q)) must equal q (the image *modified* through the API): headers, section table and contents,
                          imports, exports, relocations; the written bytes and relocated words are there
@@ -51,7 +51,7 @@ ASSUMPTIONS = [
     "relocated words are 32-bit HIGHLOW entries; a shift is exact modulo 2^32",
 ]
 
-DELTAS = (0x123000, -0x11000)
+DELTAS = (-0x11000, 0x123000)
 
 HDR_STRUCTS = ("Doshdr", "NTsig", "Coffhdr", "Opthdr", "NThdr")
 HDR_SKIP = {("NThdr", "CheckSum"), ("NThdr", "optentries")}
